@@ -14,7 +14,7 @@ RULE = ("The metric classes are ENUMERATED from the installed river (river.metri
         "the history (each explainer construction probes the metric again); rule call(wrapper_j, y_true, y_pred) draws inputs from the "
         "metric's own domain (regression: finite floats, > -1 for log-based, non-zero targets for percentage errors; binary: bool labels "
         "with bool or probability predictions as the metric requires; multi-class: labels from a small pool; dict-input: probability "
-        "dicts); prediction dicts carry extra keys besides 'output'. Oracle: a FRESH instance of the same class updated with that single "
+        "dicts); prediction dicts carry extra keys besides 'output'; LONG runs (4300 calls per metric for a rotating selection, thorough: 70000 for all) look for periodic clean-ups and saturating counters. Oracle: a FRESH instance of the same class updated with that single "
         "pair: fresh.get() * (-1 if bigger_is_better else +1), relative tolerance 1e-12; the dict/single routing is implied by which of "
         "the two the oracle feeds; metric.get() is unchanged by every call and by every validate_loss_function probe. If the fresh "
         "metric itself raises on an input the step is outside the domain and is discarded (counted). Non-trivial: history of >=5 calls "
@@ -230,6 +230,8 @@ class Sim:
 
 
 def run_case(case):
+    if 'long_calls' in case:
+        case = long_case(case['metric'], case['long_calls'])
     try:
         sim = Sim(case['metric'])
     except HarnessError:
@@ -318,7 +320,25 @@ def make_machine(names):
     return MetricMachine
 
 
-SUBS = {'machine': run_case, 'per_metric': run_case}
+LONG_PAIRS = {'reg': [(1.0, 2.5), (-3.0, 0.5), (0.0, 0.0)], 'reg_log': [(1.0, 2.5), (3.0, 0.5), (0.0, 0.0)], 'reg_pct': [(1.0, 2.5), (-3.0, 0.5), (2.0, 2.0)],
+              'bin_label': [(True, False), (True, True), (False, True)], 'bin_proba': [(True, 0.25), (False, 0.9), (True, 1.0)],
+              'multi': [(0, 1), (1, 1), (2, 0)], 'dict': [(0, [[0, 0.7], [1, 0.2]]), (1, [[0, 0.5], [1, 0.5]]), (2, [[2, 1.0]])]}
+
+
+def long_case(name, n_calls):
+    """Two wrappers of one metric object, thousands of loss calls (periodic clean-ups, saturating counters): every call is checked like
+    any other (value of a fresh metric, metric.get() unchanged)."""
+    tab, _ = table()
+    kind = tab[name][1]
+    pairs = LONG_PAIRS[kind]
+    ops = [['wrap'], ['wrap']]
+    for i in range(n_calls):
+        y, p = pairs[i % len(pairs)]
+        ops.append(['call', i % 2, y, p, []])
+    return {'metric': name, 'ops': ops}
+
+
+SUBS = {'machine': run_case, 'per_metric': run_case, 'long': run_case}
 
 
 def replay(sub, case):
@@ -337,6 +357,22 @@ def run(ctx):
         names_shard = names
     # every metric gets its own budget of machines, so that no metric is starved by sampling
     per = max(2, ctx.n(2200, 160000) // len(names))
+    # LONG runs: a rotating selection of metrics in the quick tier, all of them (spread over the shards) in the thorough tier
+    if ctx.thorough():
+        long_names = [nm for i, nm in enumerate(names) if i % ctx.nshards == ctx.shard]
+        n_calls = 70000
+    else:
+        start = ctx.base_seed % max(len(names), 1)
+        long_names = [names[(start + 7 * j) % len(names)] for j in range(6)] + [nm for nm in ('LogLoss', 'MAE', 'Accuracy') if nm in names]
+        n_calls = 4300
+    for nm in long_names:
+        case = {'metric': nm, 'long_calls': n_calls}
+        res = run_case(case)
+        res.labels = list(res.labels) + ['long_run']
+        ctx.record('long', case, res)
+        if not res.ok:
+            ctx.violation('long', res.key, res.detail, case)
+            break
     for nm in names_shard:
         if not ctx.machine_search(f'machine', make_machine([nm]), per, 30):
             # keep going: collect the other metrics' findings too (root causes are keyed by kind)
